@@ -74,6 +74,14 @@ def run(tier, rep):
         rid, r, msg = corp.add(pl, 1, keep_msg=True, lbl=False, ident=ident, kind="complete")
         if msg is not None:
             r["ops"] = [message_rec.do_op(msg, op, fields) for op in ops]
+    # implemented MSM numbers with MANY cells (more than the 64 a real receiver would send)
+    from .. import msm_corpus
+
+    for ident, shape, pl, enc in msm_corpus.build_all(corp.bundle, "c15", True):
+        if shape in ("manysat", "dense") and enc.ints.get("NSat", 0) * enc.ints.get("NSig", 0) > 40:
+            rid, r, msg = corp.add(pl, 1, keep_msg=True, lbl=False, ident=ident, kind="complete")
+            if msg is not None:
+                r["ops"] = [message_rec.do_op(msg, op, fields) for op in ops]
     verdicts = corp.judge()
     stubs = 0
     for r in corp.recs:
